@@ -149,7 +149,7 @@ prop("C12", coq_deps=AUTHZ_DEPS + ["DatalogProofs.v", "OrderProofs.v"],
                   "are equal; C12_permutation_setfree keeps the syntactic statement",
                   "error-free queries (queries_ef), runs within limits (runs_ok), authorizer facts pairwise different; "
                   "the policy list order is significant and not permuted; renaming acts on top-level variables"])
-prop("C11", coq_deps=AUTHZ_DEPS + ["DatalogProofs.v", "ChanLTS.v", "ChanLTSProofs.v"],
+prop("C11", coq_deps=AUTHZ_DEPS + ["DatalogProofs.v", "ChanLTS.v", "ChanLTSProofs.v", "TableProofs.v", "ChanPinProofs.v"],
      theorems=["C11_ok_is_fixpoint", "C11_max_facts_error", "C11_max_iterations_error", "C11_error_cases",
                "C11_authorize_fails_on_limit", "C11_limits_survive", "C11_no_stranded", "C11_no_blocked_forever",
                "C11_no_infinite_run", "C11_old_protocol_strands", "C11_channel_protocol_pinned"],
@@ -185,7 +185,7 @@ prop("C10", source_level=True, coq_deps=WIRE_DEPS + SRC_DEPS,
      assumptions=["root key is 32 bytes (property text)",
                   "C10_source_*: SymbolTable.Str/Var as translated from the source text return normally for every 64-bit / 32-bit index (len(table) < 2^63)"])
 
-prop("C19", coq_deps=["Base.v", "Footprint.v", "FootprintProofs.v", "TableProofs.v", "Generated.v"],
+prop("C19", coq_deps=["Base.v", "Footprint.v", "FootprintProofs.v", "TableProofs.v", "SharedWritePinProofs.v", "Generated.v"],
      theorems=["C19_interleave_readonly", "C19_footprints", "C19_schedules", "C19_old_code_refuted",
                "C19_no_write_through_the_shared_token", "C19_no_package_level_state_written"],
      level_text="PARTIAL proof: a generic theorem over ALL schedules of any number of threads on a shared heap (threads that write only "
